@@ -496,7 +496,14 @@ func (aof *AppendableFile) readAt(bs []byte, off int64) (n int, err error) {
 	var boff int
 
 	if off < aof.fileOffset {
-		n, err = aof.f.ReadAt(bs, aof.fileBaseOffset+off)
+		// bytes at or beyond fileOffset are served from the write buffer: after a rewind
+		// the file may still hold stale data there until the next flush
+		fileChunkSize := len(bs)
+		if int64(fileChunkSize) > aof.fileOffset-off {
+			fileChunkSize = int(aof.fileOffset - off)
+		}
+
+		n, err = aof.f.ReadAt(bs[:fileChunkSize], aof.fileBaseOffset+off)
 	} else {
 		boff = int(off - aof.fileOffset)
 	}
